@@ -249,6 +249,18 @@ where
             }
             o.extra += 1;
             if getb(v, "honest") {
+                // C03: the library accepts the signature the independent implementation makes for this tuple
+                let mut rb = vec![match label.as_str() { "Basic" => 0u8, "Aug" => 1, _ => 2 }];
+                rb.extend_from_slice(&R::enc_s(&rpt));
+                match Signature::<C>::try_from(rb.as_slice()) {
+                    Ok(rs) => {
+                        if rs.verify(&pk, &msg).is_err() {
+                            return Outcome::fail(json!({}), "the library rejects the reference-made signature");
+                        }
+                    }
+                    Err(e) => return Outcome::fail(json!({}), format!("the library cannot decode the reference-made signature: {e}")),
+                }
+                o.extra += 1;
                 // C01: still verifies after key, public key and signature went through every encoding
                 let k = geti(&v["pk"], "k");
                 match crate::codec::carry_through::<C>(&lib.sk::<C>(k), &pk, &sig, &msg) {
@@ -277,6 +289,37 @@ where
                     }
                 }
             }
+            o
+        }
+        "KeyGen" => {
+            use rand::{Rng, SeedableRng};
+            let n = geti(v, "seedlen") as usize;
+            let seed: Vec<u8> = crate::signcrypt::msg_of_len(conc, "seed", n);
+            let salt = tables.salt(gets(v, "salt"));
+            let l = geti(v, "l") as usize;
+            let how = gets(v, "how");
+            let (got, ikm): ([u8; 32], Vec<u8>) = match how {
+                "from_hash" => (SecretKey::<C>::from_hash(&seed).to_be_bytes(), seed.clone()),
+                "facade_from_hash" => (BlsSignature::<C>::secret_key_from_hash(&seed).to_be_bytes(), seed.clone()),
+                "enum_from_hash" => {
+                    let e = SecretKeyEnum::from_hash(if R::NAME == "G1" { Bls12381::G1 } else { Bls12381::G2 }, &seed);
+                    let mut b = [0u8; 32];
+                    b.copy_from_slice(&e.to_be_bytes()[1..]);
+                    (b, seed.clone())
+                }
+                _ => {
+                    // the IKM is the first 32 bytes of the caller's generator
+                    let ikm: [u8; 32] = rand_chacha::ChaCha20Rng::seed_from_u64(n as u64).gen();
+                    let k = if how == "random_seeded" { SecretKey::<C>::random(rand_chacha::ChaCha20Rng::seed_from_u64(n as u64)) } else { BlsSignature::<C>::random_secret_key(rand_chacha::ChaCha20Rng::seed_from_u64(n as u64)) };
+                    (k.to_be_bytes(), ikm.to_vec())
+                }
+            };
+            let want = hkdf_scalar(&salt, &ikm, l).to_be_bytes();
+            if got != want {
+                return Outcome::fail(json!({"lib": hex::encode(got), "ref": hex::encode(want), "how": how, "seedlen": n}), "derived secret key differs from the KeyGen construction of the draft");
+            }
+            let mut o = Outcome::pass(json!({}));
+            o.extra += 1;
             o
         }
         "PopProve" => {
